@@ -125,6 +125,26 @@ func timeModel(sc *ssa.Function, c *ssa.CallCommon, args []aval) (aval, bool) {
 				}
 			}
 		}
+		if strings.HasPrefix(full, "(time.Duration).") && len(args) == 2 {
+			d, ok1 := i64(0)
+			m, ok2 := i64(1)
+			if ok1 && ok2 {
+				switch sc.Name() {
+				case "Truncate":
+					return cInt(int64(time.Duration(d).Truncate(time.Duration(m)))), true
+				case "Round":
+					return cInt(int64(time.Duration(d).Round(time.Duration(m)))), true
+				}
+			}
+		}
+		if strings.HasPrefix(full, "(time.Duration).") && len(args) == 1 {
+			if d, ok := i64(0); ok {
+				switch sc.Name() {
+				case "Abs":
+					return cInt(int64(time.Duration(d).Abs())), true
+				}
+			}
+		}
 		return aval{}, false
 	}
 	if args[0].k == kBot {
